@@ -52,7 +52,63 @@ fn hash_of<T: Hash + ?Sized>(x: &T) -> u64 {
     h.finish()
 }
 
+/// C15/C14: `to_lean_string()` and `try_to_lean_string()` against `to_string()` for one value of every type the
+/// `match_type!` dispatch names, of the types that look like them but take the generic `Display` route (`&str`,
+/// `Cow<str>`, `Box<str>`, references to the named types), and of std types with their own `Display`
+pub fn to_lean_string_types(sink: &mut Sink) -> u64 {
+    use lean_string::ToLeanString;
+    use std::num::NonZero;
+    let mut evals = 0u64;
+    macro_rules! same {
+        ($($v:expr),* $(,)?) => {$({
+            let v = $v;
+            evals += 2;
+            let want = v.to_string();
+            let a = v.to_lean_string();
+            let b = v.try_to_lean_string().map(|s| s.as_str().to_string()).unwrap_or_else(|e| format!("Err({e:?})"));
+            if a.as_str() != want || b != want {
+                sink.fail(&["C15", "C14"], format!("{}: to_lean_string {:?}, try_to_lean_string {:?}, to_string {:?}", stringify!($v), a.as_str(), b, want));
+            }
+        })*};
+    }
+    let ls_long = LeanString::from("a LeanString longer than sixteen bytes");
+    let string = String::from("a String, seventeen+");
+    same!(
+        i8::MIN, i8::MAX, 0u8, u8::MAX, i16::MIN, u16::MAX, i32::MIN, u32::MAX, i64::MIN, i64::MAX, u64::MAX, i128::MIN, u128::MAX,
+        isize::MIN, isize::MAX, usize::MAX, 0usize,
+        NonZero::<i8>::MIN, NonZero::<u8>::MAX, NonZero::<i16>::MIN, NonZero::<u16>::MAX, NonZero::<i32>::MIN, NonZero::<u32>::MAX,
+        NonZero::<i64>::MIN, NonZero::<u64>::MAX, NonZero::<i128>::MIN, NonZero::<u128>::MAX, NonZero::<isize>::MIN, NonZero::<isize>::MAX,
+        NonZero::<usize>::MAX, NonZero::<usize>::MIN,
+        &-5i8, &7u64, &usize::MAX, &NonZero::<usize>::MAX,
+        true, false, &true, 'a', 'é', '\u{80}', '\u{ff}', '\u{10ffff}', &'ß', Box::new('€'),
+        "", "a &str", "é€𝄞 sixteen bytes+", &"a &&str", string.clone(), &string, string.as_str(), Cow::Borrowed("cow b"), Cow::<str>::Owned("cow o".into()),
+        String::from("boxed").into_boxed_str(), std::rc::Rc::<str>::from("rc str"),
+        LeanString::from("short"), ls_long.clone(), &ls_long, &&ls_long, LeanString::new(),
+        std::net::Ipv4Addr::new(192, 168, 0, 1), std::time::Duration::from_millis(1500).as_secs_f64(), format_args!("{}-{:>4}", 1, "x"),
+        std::fmt::Error, core::char::from_u32(0x1F4BF).unwrap(),
+    );
+    // floats are formatted by ryu (shortest digits, exponent form for extremes): the property asks for the value back,
+    // not for `to_string()`'s digits -- both entry points must agree and parse back to the same bits
+    for v in [0.0f64, -0.0, 1.5, f64::NAN, f64::INFINITY, f64::NEG_INFINITY, f64::MIN_POSITIVE, f64::MAX, 1e21, 0.1f32 as f64, 2.5] {
+        evals += 2;
+        let a = v.to_lean_string();
+        let b = v.try_to_lean_string().map(|s| s.as_str().to_string()).unwrap_or_default();
+        let back: f64 = a.as_str().parse().unwrap_or(f64::NAN);
+        if a.as_str() != b || (back.to_bits() != v.to_bits() && !(back.is_nan() && v.is_nan())) {
+            sink.fail(&["C15"], format!("f64 {v:e}: to_lean_string {:?}, try_to_lean_string {:?}, parses back to {back:e}", a.as_str(), b));
+        }
+        let f = v as f32;
+        let a = f.to_lean_string();
+        let back: f32 = a.as_str().parse().unwrap_or(f32::NAN);
+        if back.to_bits() != f.to_bits() && !(back.is_nan() && f.is_nan()) {
+            sink.fail(&["C15"], format!("f32 {f:e}: to_lean_string {:?} parses back to {back:e}", a.as_str()));
+        }
+    }
+    evals
+}
+
 pub fn run(rng: &mut Rng, n: usize, sink: &mut Sink) {
+
     let mut texts: Vec<String> = vec!["".into(), "a".into(), "b".into(), "ab".into(), "a\u{0}".into(), "é".into(), "e".into(),
         "0123456789abcde".into(), "0123456789abcdef".into(), "0123456789abcdeg".into(), "0123456789abcdefg".into(),
         "0123456789abcdé".into(), "\"quoted\"\n\ttab\\".into(), "𝄞 clef".into(), "Z".into(), "z".into()];
@@ -313,6 +369,15 @@ pub fn serde(rng: &mut Rng, n: usize, sink: &mut Sink) {
             }
         }
         let _ = t.as_str().into_deserializer() as StrDeserializer<VErr>;
+    }
+    // inputs of the wrong type: the error (it quotes the visitor's `expecting`) must be the one `String` reports
+    for bad in ["123", "true", "null", "[\"a\"]", "{\"a\":1}", "1.5", "\"unterminated"] {
+        evals += 1;
+        let e1 = serde_json::from_str::<LeanString>(bad).map(|s| s.as_str().to_string()).map_err(|e| e.to_string());
+        let e2 = serde_json::from_str::<String>(bad).map_err(|e| e.to_string());
+        if e1 != e2 {
+            sink.fail(&["C19"], format!("deserializing JSON {bad}: {:?}, String gives {:?}", e1, e2));
+        }
     }
     // byte inputs over the UTF-8 class alphabet
     const A: [u8; 17] = [0x41, 0x7F, 0x80, 0x8F, 0x90, 0x9F, 0xA0, 0xBF, 0xC0, 0xC2, 0xDF, 0xE0, 0xE1, 0xED, 0xF0, 0xF4, 0xFF];
